@@ -9,6 +9,13 @@ CLAIMS = {
              'ordered result as chained Python slicing, for every result length and all non-negative bounds.',
         note='Trusted: window spec (cross-checked vs CPython), proxy encoding of int as mathematical integers, z3. Aggregates, random(), '
              'bulk delete and the engines\' LIMIT implementation are not covered.'),
+    'C25': dict(
+        text='Proof (unbounded: every string length, every integer bound; all paths) that the SQL built by SQLBuilder.STRING_SLICE '
+             '(PostgreSQL, MySQL, Oracle branches), SQLiteBuilder.STRING_SLICE + py_string_slice, and StringMixin.__getitem__ on real '
+             'monads (constant / parameter / expression / omitted bounds) selects exactly the window of Python s[i:j] / s[i] under each '
+             'dialect\'s substr semantics; baked-in parameters are pinned. Region-scoped known findings are excluded from the goal, everything outside them is proved.',
+        note='Trusted: Python slice spec (cross-checked vs CPython), SQL 3VL evaluator, SQLite substr clause (validated against sqlite3 every run); '
+             'PostgreSQL/MySQL/Oracle substr and greatest() clauses are assumed from the manuals (no servers here). Column bounds quantified over non-NULL ints.'),
 }
 
 _NOT_BUILT = 'within reach of the technique per DESIGN.md, check not built yet'
